@@ -8,10 +8,10 @@ tier="${1:-quick}"; shift || true
 mkdir -p /verif/bin /verif/evidence
 ov=""; out="/verif/bin/c08"
 if [ -n "${VERIF_OVERLAY:-}" ]; then ov="-overlay=$VERIF_OVERLAY"; out="/verif/bin/c08.mut"; fi
-if ! { go build -o /verif/bin/c08-fptool ./checks/c08/fptool && go build $ov -o "$out" ./checks/c08 ; } 2> /verif/bin/c08.buildlog; then
+if ! { go build -o /verif/bin/c08-fptool ./checks/c08/fptool && go build $ov -o "$out" ./checks/c08 && go build -race $ov -o "$out.race" ./checks/c08/racepass ; } 2> /verif/bin/c08.buildlog; then
   cat /verif/bin/c08.buildlog >&2
   echo "BUILD-FAILED check=C08 (the check could not be built against the current /repo tree)" >&2
   exit 2
 fi
 export C08_FPTOOL=/verif/bin/c08-fptool
-exec "$out" -tier "$tier" "$@"
+exec "$out" -tier "$tier" -racebin "$out.race" "$@"
